@@ -18,7 +18,7 @@ import tempfile
 
 from ..leanclient import hx
 
-TRANSLATORS = ["pkcs1", "signsites"]
+TRANSLATORS = ["pkcs1", "signsites", "cryptomath", "rsapad"]
 
 MANIFEST = {
     "text": "Proof (Lean 4, Mathlib ZMod/Fermat): the blinded CRT private operation of Python_RSAKey returns m^d mod n for "
@@ -31,7 +31,15 @@ MANIFEST = {
             "verifies under the signer's own key. Tie: correspondence of every model function with RSAKey/Python_RSAKey, "
             "FFDHKeyExchange, ECDHKeyExchange glue and x25519/x448 on real keys, mutation and crafted-padding search with an "
             "independent RFC verifier and the openssl CLI as oracle, peer-share classes through calc_shared_key, fault injection at "
-            "key level and in live in-memory handshakes.",
+            "key level and in live in-memory handshakes."
+            " Regeneration: "
+            "translate/gen_rsapad.py re-translates 16 functions of tlslite/utils/rsakey.py (raw public/private operation on "
+                    "bytes, _addPKCS1Padding, DigestInfo prefixes, _raw_pkcs1_verify/sign, MGF1, EMSA_PSS_encode/verify, RSASSA_PSS_sign/"
+                    "verify, sign, verify, hashAndSign/Verify) and translate/gen_cryptomath.py the number<->bytes helpers of cryptomath.py/"
+                    "compat.py statement by statement into Lean (Tls.RsaPad.Gen, Tls.Cryptomath.Gen over the Python-runtime model); proved "
+                    "equal to the hand model for all inputs: cryptomath helpers, raw public operation, block type 1 padding, prefix table "
+                    "and prefix functions, _raw_pkcs1_verify, verify for pkcs1 (gen_pkcs1_verify_iff_canonical), MGF1; the PSS encode/"
+                    "verify, sign and hashAnd* functions are tied on kernel-evaluated input families only (gen_*_vectors_partial)",
     "note": "Trusted: Lean kernel (propext, Classical.choice, Quot.sound), hashlib, python-ecdsa (ECDSA/EdDSA/NIST+brainpool ECDH "
             "are external: only round trips, openssl cross-checks and mutation search, no proof), the openssl CLI as oracle. "
             "The X25519/X448 ladder model is an executable transliteration validated by correspondence and RFC 7748 vectors; "
@@ -2506,6 +2514,35 @@ def run_dsa_model(ctx):
 
 # ---------------------------------------------------------------------------------------------
 
+def deep_search_rsa(ctx, ossl):
+    """run when a gen_* obligation fails and nothing produced a concrete failing input: the cryptomath
+    helpers against their specification (wide), then the RSA sign/verify streams (honest signatures, bit
+    flips, crafted non-canonical encodings, PSS padding octets with stray bits, salt lengths 0 / hLen / max,
+    wrong key, faulty private operation) on further moduli with bit length = 0, 1, 2, 7 mod 8.  Problems
+    of the search itself are not violations."""
+    from . import c11
+    try:
+        c11.cryptomath_oracle(ctx, prefix="c10", deep=True)
+    except Exception as e:
+        ctx.count("deep-search-error:cryptomath:" + type(e).__name__)
+    for name, pb, qb, wb in (("deep513", 257, 256, 513), ("deep519", 260, 259, 519), ("deep520", 260, 260, 520),
+                             ("deep769", 385, 384, 769), ("deep775", 388, 387, 775), ("deep1026", 513, 513, 1026)):
+        if any(v["found"] for v in ctx.violations):
+            return
+        try:
+            k = make_rsa_key(ctx, pb, qb, wb)
+            path = ossl.write(name + ".pem", rsa_priv_pem(k)) if ossl.exe else None
+            keys = [(name, k, path)]
+            vb = RsaVerifyBatch(ctx)
+            rsa_roundtrips(ctx, keys, ossl, vb)
+            vb.flush()
+            rsa_mutations(ctx, keys, vb)
+            rsa_wrong_key(ctx, keys, vb)
+            rsa_key_faults(ctx, keys, vb)
+        except Exception as e:
+            ctx.count("deep-search-error:%s:%s" % (name, type(e).__name__))
+
+
 def run(ctx):
     ctx.rule = ("keys: every RSA/ECDSA/EdDSA/DSA key of tests/*.pem plus generated RSA keys (512, 768, 1025, 1031 bit) and a "
                 "generated DSA key; per key x scheme x hash x salt length: honest signatures (tlslite and openssl made), every "
@@ -2530,6 +2567,15 @@ def run(ctx):
         run_dsa_model(ctx)
         run_guards_unit(ctx)
         run_fault_lab(ctx)
+        from . import c11
+        c11.cryptomath_oracle(ctx, prefix="c10")
+        broken = [t for t in (ctx.build or {}).get("failed", []) if ".gen_" in t or t.startswith("Props.")]
+        if broken:
+            # the regenerated rsakey.py / cryptomath.py no longer computes the hand model: widen the search
+            # for a concrete input on which the real code leaves the property
+            ctx.extra["gen_obligations_broken"] = broken
+            if not any(v["found"] for v in ctx.violations):
+                deep_search_rsa(ctx, ossl)
     finally:
         ctx.extra["openssl_calls"] = ossl.calls
         ossl.close()
@@ -2668,6 +2714,9 @@ def replay_stage(ctx, inp):
 
 
 def replay(ctx, rep):
+    if rep.get("input", {}).get("stage") == "cryptomath":
+        from . import c11
+        return c11.replay(ctx, rep)
     inp = rep["input"]
     res = replay_stage(ctx, inp)
     if res is not None:
